@@ -431,9 +431,66 @@ def translate_path(repo, out):
     out.append("")
 
 
+# ------------------------------------------------------------------ the status command and U-Boot's crc32 work-around
+def translate_status(repo, out):
+    tree = parse(repo, "tbot/machine/linux/util.py")
+    f = find_func(tree, "posix_fetch_return_code")
+    sends = [n for n in ast.walk(f) if isinstance(n, ast.Call) and ast.unparse(n.func).endswith(".sendline")]
+    need(len(sends) == 1 and len(sends[0].args) == 1, "posix_fetch_return_code does not send exactly one line")
+    kws = {k.arg: ast.unparse(k.value) for k in sends[0].keywords}
+    need(kws == {"read_back": "True"}, "posix_fetch_return_code does not send its line with read_back=True")
+    lx = const_str(sends[0].args[0], "the status command of posix_fetch_return_code")
+
+    tree = parse(repo, "tbot/machine/board/uboot.py")
+    f = find_func(tree, "exec", "UBootShell")
+    sends = [n for n in ast.walk(f) if isinstance(n, ast.Call) and ast.unparse(n.func) == "self.ch.sendline"]
+    need(len(sends) == 2, "UBootShell.exec does not send exactly two lines")
+    need(ast.unparse(sends[0].args[0]) == "cmd", "UBootShell.exec does not send the escaped command first")
+    for sd in sends:
+        need({k.arg: ast.unparse(k.value) for k in sd.keywords} == {"read_back": "True"}, "UBootShell.exec sends a line without read_back=True")
+    ub = const_str(sends[1].args[0], "the status command of UBootShell.exec")
+    # if args[0] == "crc32" and self.ch.prompt in ("=> ", b"=> "): override_prompt = "\n=> "  else: override_prompt = None
+    ifs = [n for n in f.body if isinstance(n, ast.If)]
+    need(len(ifs) == 1, "UBootShell.exec does not have exactly one top-level if (the crc32 work-around)")
+    t = ifs[0].test
+    need(isinstance(t, ast.BoolOp) and isinstance(t.op, ast.And) and len(t.values) == 2, "the crc32 test is not `a and b`")
+    a, b = t.values
+    need(isinstance(a, ast.Compare) and len(a.ops) == 1 and isinstance(a.ops[0], ast.Eq) and ast.unparse(a.left) == "args[0]",
+         "the crc32 test does not compare args[0]")
+    cmd = const_str(a.comparators[0], "the command of the crc32 work-around")
+    need(isinstance(b, ast.Compare) and len(b.ops) == 1 and isinstance(b.ops[0], ast.In) and ast.unparse(b.left) == "self.ch.prompt"
+         and isinstance(b.comparators[0], ast.Tuple), "the crc32 test does not look the prompt up in a tuple")
+    alts = set()
+    for e in b.comparators[0].elts:
+        need(isinstance(e, ast.Constant) and isinstance(e.value, (str, bytes)), "the prompt alternatives of the crc32 test are not literals")
+        alts.add(e.value.encode() if isinstance(e.value, str) else e.value)
+    need(len(alts) == 1, "the crc32 test accepts more than one prompt")
+    def ovr(body, what):
+        asg = [n for n in body if isinstance(n, ast.Assign) and len(n.targets) == 1 and ast.unparse(n.targets[0]) == "override_prompt"]
+        need(len(asg) == 1, f"the {what} branch of the crc32 test does not assign override_prompt once")
+        return asg[0].value
+    yes, no = ovr(ifs[0].body, "then"), ovr(ifs[0].orelse, "else")
+    need(isinstance(no, ast.Constant) and no.value is None, "without the work-around override_prompt is not None")
+    ov = const_str(yes, "the overriding prompt")
+    out.append("(* from tbot/machine/linux/util.py: posix_fetch_return_code; tbot/machine/board/uboot.py: UBootShell.exec *)")
+    out.append(f"Definition GEN_ECHO_Q : list N := {nlist(lx.encode())}.")
+    out.append(f"Definition GEN_UB_ECHO_Q : list N := {nlist(ub.encode())}.")
+    out.append(f"Definition GEN_UB_CRC_CMD : list N := {codepoints(cmd)}.")
+    out.append(f"Definition GEN_UB_CRC_PROMPT : list N := {nlist(list(alts)[0])}.")
+    out.append(f"Definition GEN_UB_CRC_OVERRIDE : list N := {nlist(ov.encode())}.")
+    out.append("Definition gen_ub_override (args : list (list N)) (c : chan) : option (list N) :=")
+    out.append("  match args with")
+    out.append("  | a0 :: _ =>")
+    out.append("      if list_N_eqb a0 GEN_UB_CRC_CMD && match prompt c with Some (SLit p) => list_N_eqb p GEN_UB_CRC_PROMPT | _ => false end")
+    out.append("      then Some GEN_UB_CRC_OVERRIDE else None")
+    out.append("  | [] => None")
+    out.append("  end.")
+    out.append("")
+
+
 def translate(repo):
     out = ["(* GENERATED by tools/translate.py from the current source of the repository -- do not edit *)",
-           "From TV Require Import Base Regex LogEvent.", ""]
+           "From TV Require Import Base Regex Channel LogEvent.", ""]
     translate_hush(repo, out)
     translate_shell(repo, "tbot/machine/linux/bash.py", "Bash", "BASH", out)
     translate_shell(repo, "tbot/machine/linux/ash.py", "Ash", "ASH", out)
@@ -442,6 +499,7 @@ def translate(repo):
     translate_board(repo, out)
     translate_log(repo, out)
     translate_path(repo, out)
+    translate_status(repo, out)
     return "\n".join(out) + "\n"
 
 
